@@ -184,10 +184,11 @@ const (
 	stRejected           // something wrong with the inputs: error, sentinel and no output checked
 	stMutation           // a single-byte change of a valid output: rejection checked
 	stIgnoredArg         // fault-free call whose result must not depend on an argument the algorithm does not take
+	stSequence           // call on an object that earlier calls have used, compared with the same call on a fresh object
 	nStats
 )
 
-var statNames = [nStats]string{"roundtrips_checked", "reference_opened_kit_output", "kit_opened_reference_output", "rejections_checked", "mutations_checked", "valid_calls_with_unused_arguments_varied"}
+var statNames = [nStats]string{"roundtrips_checked", "reference_opened_kit_output", "kit_opened_reference_output", "rejections_checked", "mutations_checked", "valid_calls_with_unused_arguments_varied", "calls_on_reused_objects_checked"}
 
 var (
 	envMu   sync.Mutex
@@ -394,6 +395,7 @@ type Case struct {
 	Ctor  string `json:"ctor,omitempty"`  // aead: constructor
 	KSize int    `json:"ksize,omitempty"` // aead / kw: raw key size
 	Mut   *Mut   `json:"mut,omitempty"`
+	Seq   []int  `json:"seq,omitempty"` // state: the operations applied, in order, to one object (Ctor names the family)
 }
 
 // Mut is one single-byte change of one component.
